@@ -7,8 +7,9 @@ import ctximpl
 KIND = "ctx"
 SPECS = ["C14"]
 THEOREMS = ["C14.inv_runSt", "C14.I1", "C14.I2_alternation", "C14.I2_no_leak", "C14.I2", "C14.I3", "C14.I4", "C14.I5",
-            "C14.I6_order", "C14.spec_partial", "C14.final_ups", "C14.final_quiet"]
-LEAN_MODULES = ["TbotVerif.Props.C14"]
+            "C14.I6_order", "C14.spec_partial", "C14.final_ups", "C14.final_quiet",
+            "C14.I6", "C14.I6_event", "C14.spec", "Ctx.ops_W", "Ctx.tdLoop_W", "Ctx.execBlock_W"]
+LEAN_MODULES = ["TbotVerif.Props.C14", "TbotVerif.Props.C14Full"]
 QUICK_N, THOROUGH_N = 15000, 120000
 QUICK_BUDGET, THOROUGH_BUDGET = 40, 600
 CASE_WALL = 20
